@@ -266,6 +266,25 @@ def r19_6(ck: Check, rule: str = "R19.6") -> None:
                     "the per-connection catch-all and ends the network loop when it raises: %s" % [e.describe()[:200] for e in st], h.fi.loc)
 
 
+def r19_7(ck: Check) -> None:
+    from .common import rule_ctor_identity
+    rule_ctor_identity(ck, "R19.7", RPQ + "RemotePeer", ["host", "port", "direction", "last_connection_attempt", "ban_score"])
+    for cls in (DRP, CRP):
+        s = ck.summ(cls + ".__init__", 0)
+        sup = [e for e in s.events if e.kind == "call" and e.parts and e.parts[0][0] == "a" and e.parts[0][2] == "__init__"]
+        want = tuple(("v", a) for a in ("host", "port", "direction", "last_connection_attempt", "ban_score"))
+        construct = "%s.__init__ passes (host, port, direction, last_connection_attempt, ban_score) to RemotePeer.__init__ in order" % short(cls)
+        if len(sup) == 1 and sup[0].term[2] == want:
+            ck.ok("R19.7", construct, "", sup[0].loc)
+        else:
+            ck.violated("R19.7", construct, "%s" % [show(e.term)[:160] for e in sup], s.fi.loc)
+    lp = ck.summ(RPQ + "load_peers_from_list", 0)
+    from ..engine.match import require_return
+    require_return(ck, "R19.7", lp, Spec(lp, ("lst",)),
+                   "{(host, port, direction): DisconnectedRemotePeer(host, port, direction, None, ban_score=0) for (host, port, direction) in lst}",
+                   "peers loaded from disk start disconnected, never attempted, with no failures")
+
+
 def r19_5(ck: Check) -> None:
     q = "skepticoin.networking.disk_interface.DiskInterface.write_peers"
     atomic_replace(ck, "R19.5", q, "PEERS_JSON_FILE", "the peer file is replaced atomically")
@@ -311,4 +330,6 @@ def check(ck: Check) -> None:
     ck.run("R19.4", "self-connection", lambda: r19_4(ck))
     ck.run("R19.5", "peers file", lambda: r19_5(ck))
     ck.run("R19.6", "announced addresses are sanitised", lambda: r19_6(ck))
+    from .common import rule_ctor_identity
+    ck.run("R19.7", "peer records store what they are given", lambda: r19_7(ck))
     ck.assume("socket behaviour and clock progressions are not modelled; thread interleavings are not analysed (the maps are only touched by the network thread)")
